@@ -26,27 +26,25 @@ import_ops = None
 
 
 def _ops():
-    # kept in one place: harness/sched_impl.py (engine functions per operation are needed here for the model request)
-    fns = {
-        'flatten_pred': ['src/registry.cpp:Lookup'], 'flatten_custom': ['src/registry.cpp:Lookup'],
-        'flatten_with_path': ['src/registry.cpp:Lookup'], 'map': ['src/registry.cpp:Lookup'], 'unflatten': [],
-        'iter': ['src/registry.cpp:Lookup'], 'spec_eq': [], 'spec_hash': ['src/treespec/hashing.cpp:HashValue'],
-        'spec_hash_same': ['src/treespec/hashing.cpp:HashValue'], 'spec_repr': ['src/treespec/serialization.cpp:ToString'],
-        'pickle': ['src/registry.cpp:Lookup'], 'paths_accessors': [],
-        'register_nt': ['src/registry.cpp:RegisterImpl', 'src/registry.cpp:UnregisterImpl'],
-        'register_other': ['src/registry.cpp:RegisterImpl', 'src/registry.cpp:UnregisterImpl'],
-        'register_dup_hooked': ['src/registry.cpp:RegisterImpl', 'src/registry.cpp:UnregisterImpl'],
-        'unregister_missing_hooked': ['src/registry.cpp:UnregisterImpl'],
+    # engine functions per operation (for the model request); the operations themselves are in harness/sched_impl.py
+    L, R, U = 'src/registry.cpp:Lookup', 'src/registry.cpp:RegisterImpl', 'src/registry.cpp:UnregisterImpl'
+    return {
+        'flatten_pred': [L], 'flatten_custom': [L], 'flatten_with_path': [L], 'map': [L], 'unflatten': [], 'iter': [L],
+        'spec_eq': [], 'spec_hash': ['src/treespec/hashing.cpp:HashValue'], 'spec_hash_same': ['src/treespec/hashing.cpp:HashValue'],
+        'spec_repr': ['src/treespec/serialization.cpp:ToString'], 'pickle': [L], 'paths_accessors': [],
+        'register_nt': [R], 'unregister_nt': [U], 'unregister_nt_registered': [U], 'register_other': [R],
+        'unregister_other_registered': [U], 'register_dup_hooked': [R], 'unregister_missing_hooked': [U],
+        'unregister_hooked_registered': [U], 'flatten_nt_instance': [L],
         'is_namedtuple_class': ['include/optree/pytypes.h:IsNamedTupleClass', 'include/optree/pytypes.h:IsStructSequenceClass'],
-        'dict_order_read': ['include/optree/treespec.h:IsDictInsertionOrdered'], 'shared_iter': ['src/registry.cpp:Lookup'],
+        'dict_order_read': ['include/optree/treespec.h:IsDictInsertionOrdered'], 'shared_iter': [L],
     }
-    return fns
 
 
 A_OPS = ['flatten_pred', 'flatten_custom', 'flatten_with_path', 'map', 'unflatten', 'iter', 'spec_eq', 'spec_hash', 'spec_repr',
          'pickle', 'register_nt', 'register_dup_hooked', 'unregister_missing_hooked', 'is_namedtuple_class', 'shared_iter']
-B_OPS = ['flatten_custom', 'register_other', 'register_nt', 'spec_hash_same', 'spec_repr', 'spec_eq', 'unflatten', 'map',
-         'is_namedtuple_class', 'dict_order_read', 'paths_accessors', 'shared_iter']
+B_OPS = ['flatten_custom', 'register_other', 'register_nt', 'unregister_nt', 'unregister_nt_registered',
+         'unregister_other_registered', 'unregister_hooked_registered', 'flatten_nt_instance', 'spec_hash_same', 'spec_repr',
+         'spec_eq', 'unflatten', 'map', 'is_namedtuple_class', 'dict_order_read', 'paths_accessors', 'shared_iter']
 
 
 def generate(gen, tier):
@@ -107,27 +105,21 @@ def oracle(impl, o):
         if d['status'] != 'completes':
             fails.append({'key': f'python-deadlock-{a}-{b}', 'what': f'{where}: {d["status"]}', 'park': park})
             break
+        run, seq_ab, seq_ba = d['run'], d['seq_ab'], d['seq_ba']
         if a == 'shared_iter':
-            got = sorted(eval(d['a']) if isinstance(d['a'], str) and d['a'].startswith('[') else d['a']) if False else None
-            la = d['a'] if isinstance(d['a'], list) else []
-            lb = d['b'] if isinstance(d['b'], list) else []
-            alone = d['alone_a'] if isinstance(d['alone_a'], list) else []
-            if sorted(la + lb) != sorted(alone):
+            la = run[0] if isinstance(run[0], list) else []
+            lb = run[1] if isinstance(run[1], list) else []
+            alone = sorted((seq_ab[0] if isinstance(seq_ab[0], list) else []) + (seq_ab[1] if isinstance(seq_ab[1], list) else []))
+            if sorted(la + lb) != alone:
                 fails.append({'key': 'shared-iterator-not-exactly-once', 'what': f'{where}: the two consumers of one leaf iterator '
                               f'received {la} and {lb}; the leaves are {alone}', 'park': park})
             continue
-        same_reg = {a, b} == {'register_nt'}
-        if same_reg:
-            outs = sorted([str(d['a']), str(d['b'])])
-            if outs not in (['ValueError', 'registered'], ['registered', 'registered']):
-                fails.append({'key': 'register-same-not-once', 'what': f'{where}: outcomes {outs}', 'park': park})
+        if not d['parked']:
             continue
-        if d['a'] != d['alone_a']:
-            fails.append({'key': f'result-differs-{a}', 'what': f'{where}: {a} returned {str(d["a"])[:200]}, alone it returns '
-                          f'{str(d["alone_a"])[:200]}', 'park': park})
-        if d['parked'] and d['b'] != d['alone_b']:
-            fails.append({'key': f'result-differs-{b}', 'what': f'{where}: {b} returned {str(d["b"])[:200]}, alone it returns '
-                          f'{str(d["alone_b"])[:200]}', 'park': park})
+        if run != seq_ab and run != seq_ba:
+            fails.append({'key': f'not-linearizable-{a}-{b}', 'what': f'{where}: results and final registry state match neither '
+                          f'sequential order', 'got': str(run)[:500], 'a_then_b': str(seq_ab)[:500], 'b_then_a': str(seq_ba)[:500],
+                          'park': park})
     return fails
 
 
@@ -145,8 +137,7 @@ def _preemptive(o):
         ctx['hash0'] = hash(ctx['spec'])
         import optree
         ops = sched_impl.operations(ctx)
-        names = [n for n in ops if n not in ('shared_iter', 'register_nt', 'register_other', 'register_dup_hooked',
-                                              'unregister_missing_hooked')]
+        names = [n for n in ops if n != 'shared_iter' and 'register' not in n and n != 'flatten_nt_instance']
         nohook = lambda kind, obj=None: None     # noqa: E731
         alone = {n: ops[n][1](nohook) for n in names}
         rng = random.Random(o['seed'])
@@ -171,10 +162,10 @@ def _preemptive(o):
         # one more thread registers and unregisters an unrelated type all the time
         def registrar():
             while time.time() < stop and not bad:
-                try:
-                    ops['register_other'][1](nohook)
-                except BaseException as e:   # noqa: BLE001
-                    bad.append(('register_other', type(e).__name__ + str(e)[:100], 'registered'))
+                r1 = ops['register_other'][1](nohook)
+                r2 = ops['unregister_other_registered'][1](nohook)
+                if (r1, r2) != ('ok', 'ok'):
+                    bad.append(('register_other/unregister', str((r1, r2)), "('ok', 'ok')"))
         ts = [threading.Thread(target=worker, args=(i,)) for i in range(o['threads'])] + [threading.Thread(target=registrar)]
         for t in ts:
             t.start()
